@@ -109,12 +109,18 @@ DRV_PARTS = {
 }
 
 
+ACC_STATS = None
+
+
 def build_admdrv(flavour='plain', extra_sources=()):
     """Compile harness/cpp/*.cpp against the freshly built libadm. Returns path of admdrv."""
     bdir = build_libadm(flavour)
     ddir = os.path.join(BUILD, 'drv-' + flavour)
     os.makedirs(ddir, exist_ok=True)
     hdir = os.path.join(ROOT, 'harness', 'cpp')
+    import accgen                       # the probe / fill tables are regenerated from the headers on every build
+    global ACC_STATS
+    ACC_STATS = accgen.generate(REPO, os.path.join(hdir, 'acc_probes.inc'))
     flags = FLAVOURS[flavour].split()
     inc = ['-I' + os.path.join(REPO, 'include'), '-I' + bdir, '-I' + os.path.join(REPO, 'submodules', 'rapidxml'),
            '-I' + os.path.join(REPO, 'submodules'), '-I' + hdir]
